@@ -171,9 +171,16 @@ def conv_expected(item, ty):
                 return ('v', v)
             return ('skip',)
         if re.fullmatch(r'-?\d*\.\d+', s):
-            return ('skip',)       # fractional text into integer variable: property is silent
+            # converted to the receiving type the way every other conversion to an integer type works in this language
+            # (assignment, conv instructions): round to nearest, ties to even
+            from fractions import Fraction
+            v = round(Fraction(s))
+            lim = 32767 if ty == '%' else 2**31 - 1
+            if -lim - 1 <= v <= lim:
+                return ('v', v)
+            return ('skip',)
         return ('err', 'DEVICE_ERROR')
-    if re.fullmatch(r'-?\d+(\.\d+)?', s):
+    if re.fullmatch(r'-?(\d+(\.\d*)?|\.\d+)', s):
         v = float(s)
         if ty == '!':
             import struct
@@ -193,7 +200,7 @@ def gen_layout(r, nops):
             if k < 0.45:
                 items.append(str(r.choice([0, 1, 7, 42, -5, 300, 32767])))
             elif k < 0.6:
-                items.append(r.choice(['1.5', '0.25', '-2.5', '100.125']))
+                items.append(r.choice(['1.5', '0.25', '-2.5', '100.125', '2.5', '0.5', '-0.5', '.5', '3.5', '-1.5', '32766.5', '6.75']))
             elif k < 0.8:
                 items.append(r.choice(['abc', 'two words', 'x']))
             elif k < 0.9:
